@@ -306,13 +306,13 @@ Theorem place_position (cf : smconf) (q : Q) (col ch : Z) : k_metronome cf = 4%Z
   inject_Z (p_num p) / inject_Z (p_den p) == (q - 4 * inject_Z (p_measure p)) / 4 /\
   p_measure p = Qfloor (q / 4).
 Proof.
-  intros Hm p. unfold p, place. rewrite Hm. simpl.
+  intros Hm p. unfold p, place. rewrite Hm. cbn [p_den p_num p_measure]. change (inject_Z 4) with 4.
   set (d := Z.pos (Qden q)). set (n := Qnum q).
   assert (Hd : (0 < d * 4)%Z) by (unfold d; lia).
-  split; [exact Hd|]. split; [apply Z.mod_pos_bound; exact Hd|]. split; [|reflexivity].
+  refine (conj Hd (conj (Z.mod_pos_bound _ _ Hd) (conj _ eq_refl))).
   assert (Fl : Qfloor (q / 4) = (n / (d * 4))%Z).
   { unfold Qfloor, Qdiv, Qmult, Qinv; simpl. destruct q as [qn qd]; simpl in *. unfold n, d; simpl.
-    rewrite Z.mul_1_r. f_equal. lia. }
+    rewrite Z.mul_1_r. f_equal; lia. }
   rewrite Fl. pose proof (Z.div_mod n (d * 4) ltac:(lia)) as DM.
   assert (Q1 : q == inject_Z n / inject_Z d).
   { unfold n, d. destruct q as [qn qd]. unfold Qeq, Qdiv, Qmult, Qinv, inject_Z; simpl. lia. }
@@ -345,7 +345,7 @@ Proof.
   assert (E : forall acc, split_go 10 acc row = [frev (rev_append row acc)]).
   { clear -Hn. induction row as [|x row IH]; intro acc; simpl; auto.
     destruct (Z.eqb_spec x 10). - exfalso. apply Hn. left. auto. - apply IH. intro C. apply Hn. right. exact C. }
-  rewrite E. unfold frev. rewrite !rev_append_rev, !rev_involutive, !app_nil_r. simpl. rewrite !rev_involutive. reflexivity.
+  rewrite E. unfold frev. rewrite !rev_append_rev, !app_nil_r, !rev_involutive. reflexivity.
 Qed.
 
 (* hence the padding rows are keys wide exactly when the repaired variant is used or the chart has 4 keys *)
@@ -356,5 +356,80 @@ Proof.
   - intro H. destruct (v_pad v); auto. right. specialize (H (tx "0000")). simpl in H. symmetry. apply H. auto.
   - intros [E|E] r Hr; apply repeat_spec in Hr; subst r.
     + rewrite E, repeat_length. lia.
-    + destruct (v_pad v). rewrite repeat_length; lia. reflexivity.
+    + subst k. destruct (v_pad v). rewrite repeat_length; lia. reflexivity.
+Qed.
+
+(* ====================== defects of the pinned tree: witnesses, and the repaired variants ====================== *)
+From RV Require Import Generated.Tables Proofs.SMWitness.
+
+Definition live_conf : smconf :=
+  mkConf Tables.sm.hit_string Tables.sm.hold_string_head Tables.sm.hold_string_tail Tables.sm.roll_string_head
+         Tables.sm.roll_string_tail Tables.sm.mine_string Tables.sm.lift_string Tables.sm.fake_string
+         Tables.sm.keysound_string Tables.sm.metronome Tables.sm.max_snap Tables.sm.max_keys
+         Tables.sm.chart_keys Tables.snapper_table.
+
+Definition renders (tol : Q) (o : option (list tok)) (t : text) : bool :=
+  match o with Some toks => match_toks tol toks t | None => false end.
+Definition tol9 : Q := 1 # 1000000000.
+
+(* C03, selectable = False.  The pinned writer emits the bare token "NO;": the text the implementation wrote is a
+   rendering of the pinned model's tokens, and it is not a well-formed .sm text. *)
+Theorem sm_write_wf_refuted_selectable :
+  exists s txt, s_sel s = false /\ renders tol9 (sm_write live_conf pinned s) txt = true /\ wf_sm_textb txt = false.
+Proof. exists w_sel_set, w_sel_txt_pinned. vm_compute. auto. Qed.
+(* with the repaired formatter the same mapset is written as a well-formed text that denotes it *)
+Theorem sm_write_selectable_repaired :
+  renders tol9 (sm_write live_conf (mkVar true false false) w_sel_set) w_sel_txt_repaired = true /\
+  match sm_denote w_sel_txt_repaired with Some d => write_spec (1 # 1000000) true w_sel_set d | None => false end = true.
+Proof. vm_compute. auto. Qed.
+
+(* C03, empty-measure padding in a chart whose key count is not 4 (here kb7-single, first object in measure 1) *)
+Theorem sm_write_wf_refuted_padding :
+  exists s txt, renders tol9 (sm_write live_conf pinned s) txt = true /\ wf_sm_textb txt = false.
+Proof. exists w_pad_set, w_pad_txt_pinned. vm_compute. auto. Qed.
+Theorem sm_write_padding_repaired :
+  renders tol9 (sm_write live_conf (mkVar false true false) w_pad_set) w_pad_txt_repaired = true /\
+  match sm_denote w_pad_txt_repaired with Some d => write_spec (1 # 1000000) true w_pad_set d | None => false end = true.
+Proof. vm_compute. auto. Qed.
+
+(* C02: a well-formed text in the domain without a #STOPS tag: the pinned reader raises (None), the repaired one
+   returns what the text denotes *)
+Definition in_c02_domain (txt : text) : bool :=
+  match sm_denote txt with Some d => c02_dom d && dialect_ok txt d | None => false end.
+Theorem sm_read_refuted_no_stops_tag :
+  exists txt, in_c02_domain txt = true /\ sm_read live_conf pinned txt = None.
+Proof. exists w_read_txt. vm_compute. auto. Qed.
+Theorem sm_read_no_stops_tag_repaired :
+  match sm_denote w_read_txt, sm_read live_conf repaired w_read_txt with
+  | Some d, Some s => read_spec 0 d s
+  | _, _ => false end = true.
+Proof. vm_compute. reflexivity. Qed.
+
+(* non-vacuity: inputs inside the domains on which the pinned code is right *)
+Theorem sm_read_example :
+  in_c02_domain w_read_txt2 = true /\
+  match sm_denote w_read_txt2, sm_read live_conf pinned w_read_txt2 with
+  | Some d, Some s => read_spec 0 d s && negb (length (d_tempo d) <? 2)%nat && negb (length (flat_map d_notes (d_charts d)) <? 4)%nat
+  | _, _ => false end = true.
+Proof. vm_compute. auto. Qed.
+Theorem sm_write_example :
+  renders tol9 (sm_write live_conf pinned w_ok_set) w_ok_txt = true /\
+  match sm_denote w_ok_txt with Some d => write_spec (1 # 1000000) false w_ok_set d | None => false end = true.
+Proof. vm_compute. auto. Qed.
+
+(* ====================== C03: an item is read back as written ====================== *)
+Lemma cut_colon_app (tag v acc : text) : ~ In 58%Z tag -> cut_colon acc (tag ++ 58%Z :: v) = Some (frev (rev_append tag acc), v).
+Proof.
+  revert acc. induction tag as [|x tag IH]; intros acc H; simpl.
+  - reflexivity.
+  - destruct (Z.eqb_spec x 58). + exfalso. apply H. left. auto. + apply IH. intro C. apply H. right. exact C.
+Qed.
+(* "#TAG:value" denotes (TAG, value): the value is everything after the first colon, whatever it contains *)
+Theorem item_roundtrip (tag v : text) : ~ In 58%Z tag ->
+  parse_item ((35%Z :: tag) ++ 58%Z :: v) = Some (35%Z :: tag, v).
+Proof.
+  intro H. unfold parse_item. simpl app.
+  assert (H' : ~ In 58%Z (35%Z :: tag)) by (intros [C|C]; [discriminate|auto]).
+  change (35%Z :: tag ++ 58%Z :: v) with ((35%Z :: tag) ++ 58%Z :: v).
+  rewrite (cut_colon_app (35%Z :: tag) v [] H'). unfold frev. rewrite !rev_append_rev, !app_nil_r, rev_involutive. reflexivity.
 Qed.
